@@ -203,6 +203,10 @@ def build_cvr(rec):
         if rec["tally_pool"] is not None:
             d["tally_pool"] = rec["tally_pool"]
         return CVR.from_dict([d])[0]
+    if not votes:
+        # a record without votes is built WITHOUT the `votes` argument: it then holds the constructor's
+        # (shared, mutable) default dict, as a caller writing CVR(id=..., tally_pool=...) would get
+        return CVR(id=rec["id"], phantom=rec["phantom"], pool=rec["pool"], tally_pool=rec["tally_pool"])
     return CVR(id=rec["id"], votes=votes, phantom=rec["phantom"], pool=rec["pool"], tally_pool=rec["tally_pool"])
 
 
